@@ -25,13 +25,18 @@ pub fn check(tier: Tier) -> Check {
         parts.push(Part::new("C11/near-wrap", json!({"depth": tier.pick(5, 6) - k as usize + 1, "r": 1, "refusals": true}), k, tier.pick(30, 600)));
         parts.push(Part::new("C11/near-wrap", json!({"depth": tier.pick(4, 5) - k as usize + 1, "m": 12, "refusals": true}), k, tier.pick(30, 600)));
     }
+    // one long-lived handle used for one operation after the other, and clones taken from it in between
+    // (whatever an implementation keeps inside a handle, or copies on clone, must not repeat identifiers)
+    parts.push(Part::new("C11/near-wrap", json!({"depth": tier.pick(4, 5), "m": 13, "refusals": true, "worker": true}), 0, tier.pick(30, 600)));
+    parts.push(Part::new("C11/near-wrap", json!({"depth": tier.pick(4, 5), "r": 1, "refusals": true, "worker": true}), 1, tier.pick(30, 600)));
+    parts.push(Part::new("C11/near-wrap", json!({"depth": tier.pick(4, 6), "worker": true}), 0, tier.pick(30, 600)));
     parts.push(Part::new("C11/hook-validate", json!({}), 0, 120));
     parts.push(Part::new("C11/loom", json!({"thorough": tier == Tier::Thorough}), 0, 600));
     Check {
         also_rel: false,
         property: "C11",
         level: "model_checking",
-        rule: "(a) 12 deterministic runs of 70 000 identifier-consuming operations through the real handle/context (QoS 1 only, QoS 2 only, subscribe only, round robin) with 0, 1 or 3 acknowledgements outstanding; (b) all sequences of operation starts and acknowledgements up to the stated depth from counters preset (hook) to 65533/65534/65535 and subscription identifiers preset to 1/127/268435454; (b') the same with Receive Maximum 1 or Maximum Packet Size 12 in force, so that locally refused requests sit between the accepted ones, the context task held back and released (deviations); (c) differential validation of the hook against an honest run to the same point; (d) loom: all interleavings (unbounded; 3x2 with preemption bound 3 in thorough) of 2 threads x 2 and 3 threads x 1 first polls of publish QoS 1/2, subscribe, unsubscribe on real handle clones at the two library atomics, started at counters 1 and next to the wrap, drained through the real Context and decoded; oracle: every identifier on the wire is non-zero (strict decoder), differs from every outstanding one, subscription identifiers are never reused, no panic; non-trivial = the packet identifier counter wrapped".into(),
+        rule: "(a) 12 deterministic runs of 70 000 identifier-consuming operations through the real handle/context (QoS 1 only, QoS 2 only, subscribe only, round robin) with 0, 1 or 3 acknowledgements outstanding; (b) all sequences of operation starts and acknowledgements up to the stated depth from counters preset (hook) to 65533/65534/65535 and subscription identifiers preset to 1/127/268435454; (b') the same with Receive Maximum 1 or Maximum Packet Size 12 in force, so that locally refused requests sit between the accepted ones, the context task held back and released (deviations); (b'') the same with the operations issued on one long-lived handle (one after the other) and on clones taken from it in between; (c) differential validation of the hook against an honest run to the same point; (d) loom: all interleavings (unbounded; 3x2 with preemption bound 3 in thorough) of 2 threads x 2 and 3 threads x 1 first polls of publish QoS 1/2, subscribe, unsubscribe on real handle clones at the two library atomics, started at counters 1 and next to the wrap, drained through the real Context and decoded; oracle: every identifier on the wire is non-zero (strict decoder), differs from every outstanding one, subscription identifiers are never reused, no panic; non-trivial = the packet identifier counter wrapped".into(),
         assumptions: vec![
             "fewer than 65535 identifiers are allocated while any operation is outstanding (premise of the property)".into(),
             "loom explores interleavings at the two library atomics only; futures-channel (std atomics) is in the trusted base".into(),
@@ -202,6 +207,12 @@ pub fn scenario(name: &str, params: &Value) -> Scenario {
             OpSpec::Subscribe(SubscribeSpec::simple("s/a")),
             OpSpec::Unsubscribe(UnsubscribeSpec::simple("s/a")),
         ];
+        let mut specs = specs;
+        if params["m"].as_u64() == Some(13) {
+            // (13 bytes is what the short requests above take: they fit, these do not)
+            specs.push(OpSpec::Subscribe(SubscribeSpec::simple("s/too-long-for-the-limit")));
+            specs.push(OpSpec::Publish(PublishSpec::simple(1, "t/a", b"too long for the limit")));
+        }
         let devs = |s: &Sys| sched_deviations(s, true, false);
         let evs = |s: &Sys| {
             let mut e = start_events(s, &specs, 4, 3);
